@@ -42,6 +42,40 @@ pub fn exec(it: &mut Interp, toks: &[&str], out: &mut Vec<String>) -> bool {
             }
             true
         }
+        ["dist1", slot, a, b] => {
+            // one ordered pair (deep ontologies, where all pairs would be too many)
+            let Some(o) = slot.parse::<u32>().ok().and_then(|s| it.slots.get(&s)) else {
+                out.push("noslot".to_string());
+                return true;
+            };
+            let (Ok(a), Ok(b)) = (a.parse::<u32>(), b.parse::<u32>()) else { return false };
+            let (Some(ta), Some(tb)) = (o.hpo(a), o.hpo(b)) else {
+                out.push("noterm".to_string());
+                return true;
+            };
+            let sim = Distance::new();
+            let da = ta.distance_to_ancestor(&tb);
+            let pa = ta.path_to_ancestor(&tb);
+            let dt = ta.distance_to_term(&tb);
+            let pt = if a == b { "=".to_string() } else { optlen(ta.path_to_term(&tb).map(|p| p.len())) };
+            out.push(format!(
+                "D {} {} da={} pa={} dt={} pt={} sim={}",
+                a,
+                b,
+                optlen(da),
+                optlen(pa.map(|p| p.len())),
+                optlen(dt),
+                pt,
+                f32bits(sim.calculate(&ta, &tb))
+            ));
+            // and through the generic similarity entry points
+            let s2 = ta.similarity_score(&tb, &sim);
+            let s3 = hpo::similarity::Builtins::Distance(hpo::term::InformationContentKind::Gene).calculate(&ta, &tb);
+            if s2.to_bits() != sim.calculate(&ta, &tb).to_bits() || s3.to_bits() != s2.to_bits() {
+                out.push("oracle FAIL dist1: Distance routes disagree".to_string());
+            }
+            true
+        }
         ["oracle", "paths", slot] => {
             let Some(o) = slot.parse::<u32>().ok().and_then(|s| it.slots.get(&s)) else {
                 out.push("noslot".to_string());
